@@ -64,11 +64,14 @@ def rand_grid(rng):
         return geom.rand_cart_spec(rng, dim, nmin=1, nmax=8)
     if fam in ("polar", "sph"):
         return geom.rand_sym_spec(rng, fam, nmin=1, nmax=12)
+    if rng.random() < 0.25:
+        # strongly elongated cells (dz/dr down to 0.05 or up to 10): candidates may cover no support point
+        return geom.rand_cyl_spec(rng, nmin=1, nmax=12, ratio=(0.05, 0.2) if rng.random() < 0.5 else (5.0, 10.0))
     return geom.rand_cyl_spec(rng, nmin=1, nmax=12)
 
 
 def field_desc(rng, spec):
-    t = str(rng.choice(["noise", "const", "binary", "smooth", "scaled", "emulsion"]))
+    t = str(rng.choice(["noise", "const", "binary", "smooth", "scaled", "emulsion", "specks"]))
     d = {"type": t, "seed": int(rng.integers(1 << 30))}
     if t == "const":
         d["value"] = float(rng.choice([0.0, 1.0, -3.5]))
@@ -103,6 +106,13 @@ def make_field(grid, spec, d):
     elif t == "smooth":
         data = ndimage.gaussian_filter(r.normal(0, 1, shape), 1.0, mode="wrap")
         data = (data - data.min()) / max(np.ptp(data), 1e-12)
+    elif t == "specks":
+        data = np.zeros(shape)
+        for _ in range(int(r.integers(1, 4))):  # single hot cells, preferably in the first row/column (axis, origin)
+            idx = [int(r.integers(n)) for n in shape]
+            if r.random() < 0.7:
+                idx[0] = 0
+            data[tuple(idx)] = 1.0
     elif t == "scaled":
         data = r.normal(0.5, 0.3, shape) * d["scale"]
     else:
@@ -330,6 +340,14 @@ def run_documented(case, rec):
     call = common.monitored(rec, f"documented:{name}", fn)
     rec.check(not call.ok and type(call.exc) is etype, "documented-error",
               f"{name}: expected {etype.__name__}, got " + (repr(call.exc) if not call.ok else f"a result {call.result!r}"[:200]))
+    if w == 0:
+        # the request is invalid whether or not the frame contains a droplet
+        c0 = common.monitored(rec, "documented:modes>0 in 1-D (frame without droplets)", droplets.locate_droplets,
+                              pde.ScalarField(g1, float(r.choice([0.0, 1.0]))), modes=int(r.integers(1, 4)),
+                              minimal_radius=float(r.choice([0.0, 100.0])))
+        rec.check(not c0.ok and type(c0.exc) is ValueError, "documented-error",
+                  f"modes>0 in 1-D on a frame without droplets: expected ValueError, got "
+                  + (repr(c0.exc) if not c0.ok else f"a result {c0.result!r}"[:200]))
     if w == 2:
         c2 = common.monitored(rec, "documented:non-ScalarField refine", ia.refine_droplet, np.zeros((4, 4)),
                               droplets.DiffuseDroplet([1.0, 1.0], 1.0, 1.0))
